@@ -424,6 +424,42 @@ func playerCaseLate(snap, late *pokertable.Table, playerID string, status int, a
 	return fmt.Sprintf("ac player status=%s atime=%d waited=%s lvlup=%s late=%s st=%s gi=%d %s | call=%s delay_ms=%d\n", statusName, actionTime, b01(wait), b01(levelUp), b01(lt != nil), statusShort(t.State.Status), gi, v, res, delay)
 }
 
+// playerNoStateCase: the player runner is shown a table that says playing, lists him among the hand's players and carries
+// no hand state yet (D34): it has nothing to act on and must stay quiet
+func playerNoStateCase(snap *pokertable.Table, playerID string, status int) string {
+	t := safeClone(snap)
+	if t == nil || t.GamePlayerIndex(playerID) < 0 {
+		return ""
+	}
+	t.State.Status = pokertable.TableStateStatus_TableGamePlaying
+	t.State.GameState = nil
+	t.Meta.ActionTime = 1
+	a := actor.NewActor()
+	ad := &recAdapter{}
+	a.SetAdapter(ad)
+	pr := actor.NewPlayerRunner(playerID)
+	a.SetRunner(pr)
+	switch status {
+	case 1:
+		pr.Idle()
+	case 2:
+		pr.Suspend()
+	}
+	res := "none"
+	func() {
+		defer func() {
+			if e := recover(); e != nil {
+				res = "panic"
+			}
+		}()
+		ad.UpdateTableState(t)
+	}()
+	if calls := ad.take(); len(calls) > 0 && res == "none" {
+		res = fmt.Sprintf("%s:%d", calls[0].kind, calls[0].arg)
+	}
+	return fmt.Sprintf("ac player-nostate status=%s | call=%s\n", []string{"running", "idle", "suspend"}[status], res)
+}
+
 // playerComeBack: a suspended player — the runner has just acted for him on an earlier request — presses Fold himself; the
 // table refuses it (too late). He is back all the same: at the next request the runner waits his thinking time out.
 func playerComeBack(first, snap *pokertable.Table, playerID string) string {
@@ -845,8 +881,17 @@ func botRepeatCase(r *rand.Rand, snap *pokertable.Table, caseNo int) string {
 				mv += fmt.Sprintf("+%d-more", len(calls)-1)
 			}
 		}
-		fmt.Fprintf(&sb, "ac bot id=%d seated=1 in=1 st=playing gi=%d %s | move=%s res=ok\n", idNum(playerID), gi, viewStr(tt.State.GameState), mv)
+		vs := "-"
+		if tt.State.GameState != nil {
+			vs = viewStr(tt.State.GameState)
+		}
+		fmt.Fprintf(&sb, "ac bot id=%d seated=1 in=1 st=playing gi=%d %s | move=%s res=ok\n", idNum(playerID), gi, vs, mv)
 	}
+	// the hand is about to start: startGame has set the status to playing, the first hand state has not reached the table
+	// yet, and a call that emits without the engine lock (a sit-in, a top-up, a level change) publishes that table (D34)
+	early := safeClone(t)
+	early.State.GameState = nil
+	show(early)
 	first := safeClone(t)
 	first.State.GameState.UpdatedAt -= 2000
 	show(first)        // an earlier state of the same hand (the bot may act on it)
@@ -1078,6 +1123,9 @@ func runActor(args []string) {
 			}
 			w.WriteString(line)
 			st.PlayerCases++
+			if k%20 == 0 {
+				w.WriteString(playerNoStateCase(s, pl, r.Intn(3)))
+			}
 		}
 		// timed cases in parallel
 		timed := make([]string, *ptimed)
